@@ -20,38 +20,46 @@ from sexp import Sym
 PROP = "C18"
 READY = True
 DRIVER = "dm_stores"
-LEAN_MODULES = ["DaskModel.Props.C18", "DaskModel.Props.C18b", "DaskModel.Props.C18c", "DaskModel.Props.C18d"]
+LEAN_MODULES = ["DaskModel.Props.C18", "DaskModel.Props.C18b", "DaskModel.Props.C18c"]
 TABLES = ["ByteTables"]
 CASE_TIMEOUT_S = 10
 N0 = 1125894277343089729          # first n whose rendering has 11 characters (Lean: format_len_partial / _refuted)
 FINDING_SIG = "format_bytes:11-chars:1125894277343089729<=n<2**60"
 LEVEL_TEXT = (
-    "Lean 4 theorems over an exact integer model of the binary64 arithmetic in format_bytes (k*0.9 as the extracted "
-    "double, correctly rounded n/k, round-half-even '%.2f') and the prefix table / factor / precision extracted from "
-    "the source on every run: format_len_le_10_refuted (the documented bound '<= 10 characters for all values < 2**60' "
-    "is false: n = 1125894277343089729 prints '1000.00 PiB'), format_len_partial (the bound holds for every "
-    "n < 1125894277343089729; proved band by band from rn53_mono / rheDiv_mono / cents_mono and one evaluation per "
-    "band end, no enumeration), format_len_exact (every N0 <= n < 2**60 prints exactly 11 characters, so the "
-    "finding's range is exact). The violation is recorded as a known finding (not repaired: the pinned "
-    "test_format_bytes requires format_bytes(2**60) == '1024.00 PiB'). parse_bytes_units / parse_timedelta_units: "
-    "for every row of the extracted byte_sizes / timedelta_sizes tables, every spelling of the unit in any letter "
-    "case and every supported numeric prefix, the result is int(float(prefix) * multiplier) resp. the exact "
-    "binary64 product (the casing quantifier is discharged by proving that the lookup lower-cases first; the table "
-    "rows are quantified, not enumerated). natural_sort_key_shape / splitDigits_concat: odd number of parts, the "
-    "pieces spell the input. parse_bytes, parse_timedelta and natural_sort_key are diffed exactly against the real "
-    "functions on every run. parse_format_roundtrip: for every n < 2**60 in a band k, parse_bytes(format_bytes(n)) = v "
-    "with |v - n| <= k/200 + 321 (half a unit of the second decimal plus all binary64 roundings on the way: "
-    "int->float, n/k, '%.2f', float('ddd.dd') [ratToDy_spec: correctly rounded, 2^52 <= mantissa <= 2^53], the "
-    "product [mulR_floor_pow2: exact], int()); parse_format_plain: exact below the first band. key_split is modelled "
-    "and diffed (no theorem beyond totality by construction).")
+    "PROVED (Lean 4, over an exact integer model of the binary64 arithmetic — k*0.9 as the extracted double, "
+    "correctly rounded n/k, round-half-even '%.2f' — and the prefix table / factor / precision / unit tables extracted "
+    "from the source on every run): format_len_le_10_refuted (the documented bound '<= 10 characters for all values "
+    "< 2**60' is FALSE: n = 1125894277343089729 prints '1000.00 PiB'), format_len_partial (the bound holds for every "
+    "n < 1125894277343089729; band by band from rn53_mono / rheDiv_mono / cents_mono and one evaluation per band "
+    "end, no enumeration), format_len_exact (every N0 <= n < 2**60 prints exactly 11 characters: the finding's range "
+    "is exact). The violation is a known finding (not repaired: the pinned test_format_bytes requires "
+    "format_bytes(2**60) == '1024.00 PiB'). parse_bytes_units / parse_timedelta_units (every row of the extracted "
+    "tables, any letter case, any supported numeric prefix: int(float(prefix) * multiplier) resp. the exact binary64 "
+    "product), byte_sizes_documented / timedelta_sizes_documented, parse_timedelta_default_unit (a string without "
+    "trailing letters is read in the default unit exactly as if the unit were written) and parse_timedelta_bare_unit "
+    "(a bare unit means one of it), parse_format_roundtrip (every n < 2**60 in a band k: "
+    "|parse_bytes(format_bytes(n)) - n| <= k/200 + 321, all binary64 roundings on the way accounted for) and "
+    "parse_format_plain (exact below the first band), natural_sort_key_shape / splitDigits_concat, key_split: "
+    "key_split_name_prefix / key_split_all_words (for keys `words-…-token` the result is the leading run of "
+    "alphabetic words; 8-letter words starting a-f count as hex), key_split_hex32 (a bare 32-hex token is 'data'); "
+    "totality of key_split / natural_sort_key is by construction (total functions, 'Other' on any exception). "
+    "VALIDATED ONLY (exact differential correspondence on every run): format_time (exact binary64 model "
+    "Model/FormatTime.lean: thresholds, float/int division, float-int subtraction, truncation, '%.2f'; diffed on all "
+    "thresholds +- ulps, unit multiples +- ulps, random magnitudes; no theorem), typename (module/name/short model), "
+    "funcname (oracle: partial unwrapping, lambda, 50-character cut), key_split on bytes/tuples/non-strings, "
+    "non-string arguments of parse_bytes / parse_timedelta.")
 LEVEL_NOTE = ("Trusted: Lean kernel + standard axioms; CPython's float formatting/parsing being correctly rounded "
               "(validated by exact string comparison against the integer model on every run); the extractor; the "
               "correspondence harness. Only ASCII input strings; float literal syntax limited to "
               "[sign]digits[.digits][e[sign]digits].")
-TECHNIQUE = ("Lean 4 proof (monotonicity of the two roundings, band-wise bounds) over extractor-regenerated tables + "
-             "exact differential correspondence of the float model")
-ASSUMPTIONS = ["CPython float(), int/int true division, float*float and '%.2f' are correctly rounded (IEEE 754 binary64)",
-               "no overflow / subnormal / inf / nan in the exercised ranges"]
+TECHNIQUE = ("Lean 4 proof (monotonicity of the two roundings, band-wise bounds, list-level string reasoning for the "
+             "parsers and key_split) over extractor-regenerated tables + exact differential correspondence of the float model")
+ASSUMPTIONS = ["CPython float(), int/int and float/int true division, float*float, float-int and '%.2f' are correctly "
+               "rounded (IEEE 754 binary64)",
+               "no overflow / subnormal / inf / nan in the exercised ranges; format_time inputs are finite, >= 0, < 2**53",
+               "ASCII strings (str.isalpha / isdigit / split() are modelled on ASCII only)"]
+TRUSTED = ["re (hex_pattern, the 32-hex test and natural_sort_key's split are transliterated, validated by the diff)",
+           "sys.intern (identity of the returned string is not observed)"]
 
 
 # The DOCUMENTED multipliers (docstrings of parse_bytes / parse_timedelta, SI and IEC prefixes). The oracle scales by
@@ -361,7 +369,7 @@ def _huge_exponent(s):
 
 def generate(ctx):
     from props._stores_util import ensure_budget
-    ensure_budget(ctx, quick_scale=3.0)
+    ensure_budget(ctx, quick_scale=2.0)
     rng = ctx.rng
     byte_sizes, td_sizes = _tables()
     yield "tables", {}
